@@ -26,7 +26,9 @@ def main():
     prop = sys.argv[1]
     keep = '--keep' in sys.argv
     base = sys.argv[sys.argv.index('--dir') + 1] if '--dir' in sys.argv else '/tmp/wt3'
-    outdir = '%s/%s_out' % (base, prop)
+    suffix = sys.argv[sys.argv.index('--suffix') + 1] if '--suffix' in sys.argv else ''
+    offset = int(sys.argv[sys.argv.index('--offset') + 1]) if '--offset' in sys.argv else 0
+    outdir = '%s/%s_out%s' % (base, prop, suffix)
     for patch in sorted(glob.glob(os.path.join(outdir, 'refactor*.diff'))):
         n = re.search(r'refactor(\d+)', patch).group(1)
         d = tempfile.mkdtemp(prefix='verif-refac-')
@@ -49,7 +51,7 @@ def main():
             for l in out.strip().splitlines()[1:7]:
                 print('     ' + l[:260])
             if keep and '3583 passed' in suite:
-                dst = os.path.join(VERIF, 'seeded', 'benign', '%s-r%s' % (prop, n))
+                dst = os.path.join(VERIF, 'seeded', 'benign', '%s-r%s' % (prop, int(n) + offset))
                 os.makedirs(dst, exist_ok=True)
                 shutil.copy(patch, os.path.join(dst, 'patch.diff'))
                 notes = os.path.join(outdir, 'NOTES.md')
